@@ -231,6 +231,7 @@ func RunC12(st *simcore.Stream, tier, leg string, logOn bool, res *simcore.Resul
 		w.Finished = true
 	})
 	fillStats(res, w)
+	dropClasses(res, c11Classes...)
 	if w.Sim.Stats.HitStepCap {
 		// which tasks kept running?
 		busy := map[string]int{}
